@@ -29,14 +29,52 @@ static Run* R;
 // ------------------------------------------------------------------------------------------ helpers
 // All coordinates are kept in half units (int): vertex k -> 2k, query h -> h/2.  Doubles handed to
 // gdstk are h * 0.5, exactly representable, so every cross product in Polygon::contain is exact.
+//
+// Family "wide_mantissa" (fam 1, 2): the same integer grid multiplied by a unit u = M / 2^s with a 27/28-bit odd
+// M (u1 = (2^27+1)/2^10, u2 = (2^26+5)/2^8).  Every coordinate k*u/2 is exactly representable, differences of
+// coordinates are exact, but the PRODUCTS formed by the cross product in Polygon::contain need more than 53
+// bits and are rounded: a query point exactly on a slanted edge gives two equal real products, which only
+// cancel if both are rounded the same way.  Query points: the half-grid points h*u/2 (edge interiors such as
+// midpoints and k-th division points, vertices, off-edge points) and each of them displaced by (dx,dy)*2^-28,
+// dx,dy in {-1,0,1}: "just off the edge" on either side.  The oracle works on integers: every double is a
+// multiple of 2^-28, so coordinates scaled by 2^28 are int64 (< 2^49) and eg::cross is exact in __int128.
+// The displacement is chosen so that plain double arithmetic provably decides these points: the true
+// determinant is at least 2^-28 * u >= 2^-11 (u1) / 2^-10 (u2) in magnitude while the two rounded products
+// (magnitude <= (4.5 u)^2) carry at most 2^-14 / 2^-12 of error.
 struct Grid {
     int g;
+    int fam = 0;           // 0: unit 1 (exact products); 1, 2: wide_mantissa units
+    double unit = 1.0;     // vertex k -> k * unit
+    int64_t W = 1;         // oracle integer units per half grid step
+    int ndisp = 1;         // 1, or 9 displacements (dx,dy) in {-1,0,1}^2 of one oracle unit (2^-28)
+    double delta = 0;      // one oracle unit as a double
     int nv() const { return g * g; }
     int qlo() const { return -2; }
     int qn() const { return 2 * g + 3; }  // -2 .. 2g  (box [0, g-1] extended by one unit)
-    int nq() const { return qn() * qn(); }
-    eg::P q(int qi) const { return eg::P{qlo() + qi / qn(), qlo() + qi % qn()}; }
+    int ncell() const { return qn() * qn(); }
+    int nq() const { return ncell() * ndisp; }
+    bool wide() const { return fam != 0; }
+    int hx(int qi) const { return qlo() + (qi / ndisp) / qn(); }
+    int hy(int qi) const { return qlo() + (qi / ndisp) % qn(); }
+    int dx(int qi) const { return ndisp == 1 ? 0 : (qi % ndisp) / 3 - 1; }
+    int dy(int qi) const { return ndisp == 1 ? 0 : (qi % ndisp) % 3 - 1; }
+    eg::P q(int qi) const { return eg::P{hx(qi) * W + dx(qi), hy(qi) * W + dy(qi)}; }
+    Vec2 qv(int qi) const { return Vec2{hx(qi) * (unit * 0.5) + dx(qi) * delta, hy(qi) * (unit * 0.5) + dy(qi) * delta}; }
+    std::string qjson(int qi) const {
+        if (!wide()) return "[" + jnum(hx(qi) * 0.5) + "," + jnum(hy(qi) * 0.5) + "]";
+        return fmt("[\"%d/2 u%+d*2^-28 = %.17g\",\"%d/2 u%+d*2^-28 = %.17g\"]", hx(qi), dx(qi), qv(qi).x, hy(qi), dy(qi), qv(qi).y);
+    }
+    const char* family() const { return fam == 0 ? "unit_grid" : fam == 1 ? "wide_mantissa u=(2^27+1)/2^10" : "wide_mantissa u=(2^26+5)/2^8"; }
 };
+static Grid make_grid(int g, int fam) {
+    Grid G;
+    G.g = g;
+    G.fam = fam;
+    if (fam == 1) { G.unit = 134217729.0 / 1024.0; G.W = 134217729LL << 17; }   // u/2 = M / 2^11 = M * 2^17 * 2^-28
+    if (fam == 2) { G.unit = 67108869.0 / 256.0; G.W = 67108869LL << 19; }      // u/2 = M / 2^9  = M * 2^19 * 2^-28
+    if (fam) { G.ndisp = 9; G.delta = ldexp(1.0, -28); }
+    return G;
+}
 static int64_t ipow(int64_t b, int e) { int64_t r = 1; while (e-- > 0) r *= b; return r; }
 
 struct VList {
@@ -52,8 +90,8 @@ struct VList {
             idx /= G.nv();
             vx[i] = v / G.g;
             vy[i] = v % G.g;
-            pts[i] = Vec2{(double)vx[i], (double)vy[i]};
-            P[i] = eg::P{2 * vx[i], 2 * vy[i]};
+            pts[i] = Vec2{vx[i] * G.unit, vy[i] * G.unit};
+            P[i] = eg::P{2 * vx[i] * G.W, 2 * vy[i] * G.W};
         }
     }
     std::string json() const {
@@ -69,7 +107,6 @@ struct VList {
         poly.point_array.capacity = n;
     }
 };
-static std::string qjson(eg::P q) { return "[" + jnum(q.x * 0.5) + "," + jnum(q.y * 0.5) + "]"; }
 
 // "self-intersecting or degenerate": anything that is not a simple polygon (collinear runs allowed)
 static bool not_simple(const eg::Poly& P) { return P.size() >= 3 && !eg::is_simple(P, true); }
@@ -157,7 +194,7 @@ static void build_reps() {
 // ------------------------------------------------------------------------------------------ point + measure
 struct Acc {  // per-chunk counters, flushed once
     int64_t cases = 0, nontrivial = 0, point_tests = 0, measure_tests = 0, on_boundary = 0, vertex_row = 0, inside_cnt = 0, outside_cnt = 0, wind_ge2 = 0, wind_even_nonzero = 0,
-            wind_neg = 0, lists_not_simple = 0, lists = 0, rep_zero_count = 0;
+            wind_neg = 0, lists_not_simple = 0, lists = 0, rep_zero_count = 0, wide_tests = 0, wide_on_boundary = 0, wide_displaced = 0;
     void flush() {
         R->count("cases", cases);
         R->count("nontrivial", nontrivial);
@@ -173,10 +210,15 @@ struct Acc {  // per-chunk counters, flushed once
         R->count("lists", lists);
         R->count("lists_self_intersecting_or_degenerate", lists_not_simple);
         R->count("measure_tests_zero_count_lattice", rep_zero_count);
+        if (wide_tests) {
+            R->count("wide_mantissa_point_tests", wide_tests);
+            R->count("wide_mantissa_pt_on_boundary", wide_on_boundary);
+            R->count("wide_mantissa_pt_displaced_by_2^-28", wide_displaced);
+        }
     }
 };
 
-static std::string list_replay(const Grid& G, int n, int64_t idx) { return fmt("g=%d n=%d idx=%lld", G.g, n, (long long)idx); }
+static std::string list_replay(const Grid& G, int n, int64_t idx) { return fmt("g=%d fam=%d n=%d idx=%lld", G.g, G.fam, n, (long long)idx); }
 
 // one (list, query) point test; returns false on mismatch
 static bool point_case(const Grid& G, VList& L, Polygon& poly, int n, int64_t idx, int qi, bool ns, uint32_t rowmask, Acc& a, bool verbose) {
@@ -184,10 +226,16 @@ static bool point_case(const Grid& G, VList& L, Polygon& poly, int n, int64_t id
     bool onb = eg::on_boundary(L.P, q);
     int w = onb ? 0 : eg::winding(L.P, q);
     bool expect = onb || w != 0;
-    bool got = poly.contain(Vec2{q.x * 0.5, q.y * 0.5});
+    bool got = poly.contain(G.qv(qi));
     a.cases++;
     a.point_tests++;
-    bool row = q.y >= 0 && (q.y & 1) == 0 && (rowmask >> (q.y / 2) & 1);
+    int hy = G.hy(qi);
+    bool row = G.dy(qi) == 0 && hy >= 0 && (hy & 1) == 0 && (rowmask >> (hy / 2) & 1);
+    if (G.wide()) {
+        a.wide_tests++;
+        if (onb) a.wide_on_boundary++;
+        if (G.dx(qi) || G.dy(qi)) a.wide_displaced++;
+    }
     if (onb) a.on_boundary++;
     if (row) a.vertex_row++;
     if (onb || row || ns) a.nontrivial++;
@@ -195,11 +243,11 @@ static bool point_case(const Grid& G, VList& L, Polygon& poly, int n, int64_t id
     if (w >= 2 || w <= -2) a.wind_ge2++;
     if (w != 0 && w % 2 == 0) a.wind_even_nonzero++;
     if (w < 0) a.wind_neg++;
-    if (verbose) fprintf(stderr, "list %s query %s: on_boundary=%d winding=%d expected=%d contain()=%d\n", L.json().c_str(), qjson(q).c_str(), onb, w, expect, got);
+    if (verbose) fprintf(stderr, "list %s query %s: on_boundary=%d winding=%d expected=%d contain()=%d\n", L.json().c_str(), G.qjson(qi).c_str(), onb, w, expect, got);
     if (got == expect) return true;
     R->violation("point", expect ? "contain-false-negative" : "contain-false-positive",
-                 {{"n", jint(n)}, {"on_boundary", jbool(onb)}, {"winding", jint(w)}, {"on_vertex_row", jbool(row)}, {"self_intersecting_or_degenerate", jbool(ns)}},
-                 jobj({{"points", L.json()}, {"query", qjson(q)}, {"grid", jint(G.g)}}),
+                 {{"n", jint(n)}, {"on_boundary", jbool(onb)}, {"winding", jint(w)}, {"on_vertex_row", jbool(row)}, {"self_intersecting_or_degenerate", jbool(ns)}, {"family", jstr(G.wide() ? "wide_mantissa" : "unit_grid")}},
+                 jobj({{"points", L.json()}, {"coordinates_in_units_of", jstr(G.family())}, {"query", G.qjson(qi)}, {"grid", jint(G.g)}}),
                  fmt("Polygon::contain returned %d; exact oracle: on_boundary=%d winding=%d => %d", got, onb, w, expect), "sub=point " + list_replay(G, n, idx) + fmt(" qi=%d", qi));
     return false;
 }
@@ -207,8 +255,13 @@ static bool point_case(const Grid& G, VList& L, Polygon& poly, int n, int64_t id
 static void measure_case(const Grid& G, VList& L, Polygon& poly, int n, int64_t idx, int ri, bool ns, Acc& a, bool verbose) {
     const RepVar& rv = REPS[ri];
     poly.repetition = rv.rep;  // shallow: the arrays stay owned by REPS
-    eg::i128 a2 = n >= 3 ? eg::area2(L.P) : 0;  // P is in half units: a2 = 2 * area * 4
-    double exp_signed = (double)(int64_t)a2 / 8.0;  // exact: |a2| is a small integer
+    // unit grid: P is in half units, a2 = 2 * area * 4, a small integer: everything below is exact.
+    // wide_mantissa: the shoelace terms inside gdstk are rounded products; the exact value is formed from the
+    // integer grid coordinates (times unit^2 in long double) and compared to 1e-12 of (grid extent * unit)^2.
+    eg::i128 a2 = 0;
+    if (n >= 3)
+        for (int i = 0; i < n; i++) { int j = (i + 1) % n; a2 += (eg::i128)L.vx[i] * L.vy[j] - (eg::i128)L.vx[j] * L.vy[i]; }  // 2 * area in grid units
+    double exp_signed = G.wide() ? (double)((long double)(int64_t)a2 * 0.5L * (long double)G.unit * (long double)G.unit) : (double)(int64_t)a2 / 2.0;
     double mult = (double)rv.own_count;
     double exp_area = fabs(exp_signed) * mult;
     long double per = 0;
@@ -218,6 +271,7 @@ static void measure_case(const Grid& G, VList& L, Polygon& poly, int n, int64_t 
             long double dx = L.vx[j] - L.vx[i], dy = L.vy[j] - L.vy[i];
             per += sqrtl(dx * dx + dy * dy);
         }
+    per *= (long double)G.unit;
     long double exp_per = per * (long double)rv.own_count;
     double got_signed = poly.signed_area(), got_area = poly.area(), got_per = poly.perimeter();
     memset(&poly.repetition, 0, sizeof poly.repetition);
@@ -230,9 +284,14 @@ static void measure_case(const Grid& G, VList& L, Polygon& poly, int n, int64_t 
                 exp_signed, got_area, exp_area, got_per, exp_per);
     long double tol = 1e-12L * std::max<long double>(1.0L, exp_per);
     bool ok_s = got_signed == exp_signed, ok_a = got_area == exp_area, ok_p = fabsl((long double)got_per - exp_per) <= tol;
+    if (G.wide()) {
+        double atol = 1e-12 * (G.g * G.unit) * (G.g * G.unit);
+        ok_s = fabs(got_signed - exp_signed) <= atol;
+        ok_a = fabs(got_area - exp_area) <= atol * std::max(1.0, mult);
+    }
     if (ok_s && ok_a && ok_p) return;
     JFields tags = {{"n", jint(n)}, {"kind", jstr(rv.kind)}, {"zero_count", jbool(rv.zero_count)}, {"copies", juint(rv.own_count)}, {"below_three_vertices", jbool(n < 3)}};
-    std::string cs = jobj({{"points", L.json()}, {"repetition", jstr(rv.name)}, {"grid", jint(G.g)}});
+    std::string cs = jobj({{"points", L.json()}, {"coordinates_in_units_of", jstr(G.family())}, {"repetition", jstr(rv.name)}, {"grid", jint(G.g)}});
     std::string rp = "sub=measure " + list_replay(G, n, idx) + fmt(" rep=%d", ri);
     if (!ok_s) R->violation("measure", "signed_area", tags, cs, fmt("signed_area() = %.17g, shoelace sum = %.17g (not multiplied by copies)", got_signed, exp_signed), rp);
     if (!ok_a) R->violation("measure", "area", tags, cs, fmt("area() = %.17g, |shoelace| x %llu copies = %.17g", got_area, (unsigned long long)rv.own_count, exp_area), rp);
@@ -261,8 +320,8 @@ static void list_case(const Grid& G, int n, int64_t idx, Acc& a, int only_q, int
         }
 }
 
-static void run_lists(int g, int n) {
-    Grid G{g};
+static void run_lists(int g, int n, int fam = 0) {
+    Grid G = make_grid(g, fam);
     int64_t total = ipow(G.nv(), n);
     int64_t chunk = 2048, nchunks = (total + chunk - 1) / chunk;
     auto body = [&](int64_t c) {
@@ -270,14 +329,20 @@ static void run_lists(int g, int n) {
         for (int64_t idx = c * chunk; idx < std::min(total, (c + 1) * chunk); idx++) list_case(G, n, idx, a, -1, -1, false);
         a.flush();
     };
-    std::string sub = fmt("lists.g%d.n%d", g, n);
-    bool ok = parallel_for(*R, nchunks, body, [&](int64_t c) { return jobj({{"grid", jint(g)}, {"n", jint(n)}, {"first_list_index", jint(c * chunk)}, {"lists_in_chunk", jint(chunk)}}); },
+    std::string sub = fam ? fmt("wide_mantissa.u%d.lists.g%d.n%d", fam, g, n) : fmt("lists.g%d.n%d", g, n);
+    if (fam) chunk = 256, nchunks = (total + chunk - 1) / chunk;
+    bool ok = parallel_for(*R, nchunks, body, [&](int64_t c) { return jobj({{"family", jstr(G.family())}, {"grid", jint(g)}, {"n", jint(n)}, {"first_list_index", jint(c * chunk)}, {"lists_in_chunk", jint(chunk)}}); },
                            [&](int64_t c) { return "sub=chunk " + list_replay(G, n, c * chunk) + fmt(" count=%lld", (long long)chunk); }, PFOptions{120, sub, true});
     if (n >= 3) {
         VList L;
         L.decode(G, n, total / 3 + 5);
-        R->sample("point", jobj({{"points", L.json()}, {"queries", jstr(fmt("all %d points of the half-integer grid [-1,%d]^2", G.nq(), g))}, {"repetitions", jint((int64_t)REPS.size())}}));
+        R->sample(fam ? "wide_mantissa" : "point", jobj({{"points", L.json()}, {"coordinates_in_units_of", jstr(G.family())}, {"queries", jstr(fmt("all %d points of the half-integer grid [-1,%d]^2%s", G.ncell(), g, fam ? " x 9 displacements (dx,dy)*2^-28" : ""))}, {"repetitions", jint((int64_t)REPS.size())}}));
     }
+    if (fam)
+        R->bound(sub, fmt("family wide_mantissa, coordinates = integer grid x %s: all %d^%d vertex lists of length %d on the %dx%d grid (both orientations, every slope with |dx|,|dy| <= %d) x (%d query points: half-grid points [-1,%d]^2 x u, i.e. edge interiors, vertices and off-edge points, each also displaced by (dx,dy)*2^-28 with dx,dy in {-1,0,1}; + %d repetition variants x {signed_area, area to 1e-12 of extent^2, perimeter to 1e-12})",
+                          G.family(), G.nv(), n, n, g, g, g - 1, G.nq(), g, (int)REPS.size()),
+                 ok, total * (G.nq() + (int64_t)REPS.size()));
+    else
     R->bound(sub, fmt("all %d^%d vertex lists of length %d on the %dx%d integer grid x (%d query points of the half-integer grid [-1,%d]^2 + %d repetition variants x {signed_area, area, perimeter})",
                       G.nv(), n, n, g, g, G.nq(), g, (int)REPS.size()),
              ok, total * (G.nq() + (int64_t)REPS.size()));
@@ -294,7 +359,8 @@ struct GroupSpace {
     Grid G;
     int nmax, maxlen;
     std::vector<GList> lists;
-    GroupSpace(int g, int nmax_, int maxlen_) : G{g}, nmax(nmax_), maxlen(maxlen_) {
+    GroupSpace(int g, int nmax_, int maxlen_, int fam = 0) : G(make_grid(g, fam)), nmax(nmax_), maxlen(maxlen_) {
+        if (fam) { G.ndisp = 1; }  // group queries on the wide_mantissa grid use the undisplaced half-grid points
         int64_t total = 0;
         for (int n = 0; n <= nmax; n++) total += ipow(G.nv(), n);
         lists.resize(total);
@@ -310,18 +376,18 @@ struct GroupSpace {
             gl.cov.resize(G.nq());
             for (int qi = 0; qi < G.nq(); qi++) {
                 eg::P q = G.q(qi);
-                bool got = gl.poly.contain(Vec2{q.x * 0.5, q.y * 0.5});
+                bool got = gl.poly.contain(G.qv(qi));
                 bool expect = eg::covers(gl.L.P, q);
                 gl.cov[qi] = got;
                 if (got != expect)
-                    R->violation("group.table", "contain-mismatch", {{"n", jint(gl.L.n)}}, jobj({{"points", gl.L.json()}, {"query", qjson(q)}, {"grid", jint(g)}}),
+                    R->violation("group.table", "contain-mismatch", {{"n", jint(gl.L.n)}}, jobj({{"points", gl.L.json()}, {"coordinates_in_units_of", jstr(G.family())}, {"query", G.qjson(qi)}, {"grid", jint(g)}}),
                                  fmt("Polygon::contain = %d, exact oracle = %d (single-polygon answer used by the group checks)", got, expect),
                                  "sub=point " + list_replay(G, gl.L.n, gl.idx) + fmt(" qi=%d", qi));
             }
         }
     }
     int64_t npl() const { int64_t t = 0; for (int l = 0; l <= maxlen; l++) t += ipow(G.nq(), l); return t; }
-    std::string desc() const { return fmt("lists of length <= %d on the %dx%d grid (%zu lists), point lists of length <= %d over the %d-point half-integer grid [-1,%d]^2 (%lld point lists)", nmax, G.g, G.g, lists.size(), maxlen, G.nq(), G.g, (long long)npl()); }
+    std::string desc() const { return std::string(G.wide() ? std::string("[family wide_mantissa, coordinates x ") + G.family() + "] " : std::string()) + fmt("lists of length <= %d on the %dx%d grid (%zu lists), point lists of length <= %d over the %d-point half-integer grid [-1,%d]^2 (%lld point lists)", nmax, G.g, G.g, lists.size(), maxlen, G.nq(), G.g, (long long)npl()); }
 };
 struct GAcc {
     int64_t cases = 0, nontrivial = 0, empty_group = 0, empty_points = 0, with_rep = 0;
@@ -337,7 +403,7 @@ struct GAcc {
 };
 static std::string pts_json(const Grid& G, const int* qi, int len) {
     std::vector<std::string> v;
-    for (int i = 0; i < len; i++) v.push_back(qjson(G.q(qi[i])));
+    for (int i = 0; i < len; i++) v.push_back(G.qjson(qi[i]));
     return jarr(v);
 }
 // contain_all / contain_any of one polygon (with repetition variant ri) on one point list
@@ -348,8 +414,7 @@ static void single_case(GroupSpace& S, int a, int ri, const int* qi, int len, GA
     points.items = pbuf; points.count = len; points.capacity = 2;
     bool eall = true, eany = false, anyT = false, anyF = false;
     for (int i = 0; i < len; i++) {
-        eg::P q = S.G.q(qi[i]);
-        pbuf[i] = Vec2{q.x * 0.5, q.y * 0.5};
+        pbuf[i] = S.G.qv(qi[i]);
         bool c = gl.cov[qi[i]];
         eall = eall && c; eany = eany || c;
         (c ? anyT : anyF) = true;
@@ -363,9 +428,9 @@ static void single_case(GroupSpace& S, int a, int ri, const int* qi, int len, GA
     if (ri) acc.with_rep++;
     if (verbose) fprintf(stderr, "polygon %s repetition {%s} points %s: contain_all=%d (expected %d) contain_any=%d (expected %d)\n", gl.L.json().c_str(), REPS[ri].name.c_str(), pts_json(S.G, qi, len).c_str(), gall, eall, gany, eany);
     if (gall == eall && gany == eany) return;
-    JFields tags = {{"n", jint(gl.L.n)}, {"points", jint(len)}, {"kind", jstr(REPS[ri].kind)}, {"zero_count", jbool(REPS[ri].zero_count)}};
-    std::string cs = jobj({{"polygon", gl.L.json()}, {"repetition", jstr(REPS[ri].name)}, {"points", pts_json(S.G, qi, len)}, {"grid", jint(S.G.g)}});
-    std::string rp = fmt("sub=group.single g=%d nmax=%d a=%d rep=%d len=%d p=%d q=%d", S.G.g, S.nmax, a, ri, len, len > 0 ? qi[0] : 0, len > 1 ? qi[1] : 0);
+    JFields tags = {{"n", jint(gl.L.n)}, {"points", jint(len)}, {"kind", jstr(REPS[ri].kind)}, {"zero_count", jbool(REPS[ri].zero_count)}, {"family", jstr(S.G.wide() ? "wide_mantissa" : "unit_grid")}};
+    std::string cs = jobj({{"coordinates_in_units_of", jstr(S.G.family())}, {"polygon", gl.L.json()}, {"repetition", jstr(REPS[ri].name)}, {"points", pts_json(S.G, qi, len)}, {"grid", jint(S.G.g)}});
+    std::string rp = fmt("sub=group.single g=%d fam=%d nmax=%d a=%d rep=%d len=%d p=%d q=%d", S.G.g, S.G.fam, S.nmax, a, ri, len, len > 0 ? qi[0] : 0, len > 1 ? qi[1] : 0);
     if (gall != eall) R->violation("group.single", "contain_all", tags, cs, fmt("contain_all = %d, conjunction of contain() over the points = %d", gall, eall), rp);
     if (gany != eany) R->violation("group.single", "contain_any", tags, cs, fmt("contain_any = %d, disjunction of contain() over the points = %d", gany, eany), rp);
 }
@@ -382,8 +447,7 @@ static void multi_case(GroupSpace& S, int a, int b, const int* qi, int len, GAcc
     points.items = pbuf; points.count = len; points.capacity = 2;
     bool e[2] = {false, false}, eall = true, eany = false, anyT = false, anyF = false;
     for (int i = 0; i < len; i++) {
-        eg::P q = S.G.q(qi[i]);
-        pbuf[i] = Vec2{q.x * 0.5, q.y * 0.5};
+        pbuf[i] = S.G.qv(qi[i]);
         if (a >= 0) { bool c = S.lists[a].cov[qi[i]]; e[i] = e[i] || c; (c ? anyT : anyF) = true; }
         if (b >= 0) { bool c = S.lists[b].cov[qi[i]]; e[i] = e[i] || c; (c ? anyT : anyF) = true; }
         eall = eall && e[i];
@@ -406,9 +470,9 @@ static void multi_case(GroupSpace& S, int a, int b, const int* qi, int len, GAcc
     std::vector<std::string> pj;
     if (a >= 0) pj.push_back(S.lists[a].L.json());
     if (b >= 0) pj.push_back(S.lists[b].L.json());
-    JFields tags = {{"polygons", jint(np)}, {"points", jint(len)}};
-    std::string cs = jobj({{"polygons", jarr(pj)}, {"points", pts_json(S.G, qi, len)}, {"grid", jint(S.G.g)}});
-    std::string rp = fmt("sub=group.multi g=%d nmax=%d a=%d b=%d len=%d p=%d q=%d", S.G.g, S.nmax, a, b, len, len > 0 ? qi[0] : 0, len > 1 ? qi[1] : 0);
+    JFields tags = {{"polygons", jint(np)}, {"points", jint(len)}, {"family", jstr(S.G.wide() ? "wide_mantissa" : "unit_grid")}};
+    std::string cs = jobj({{"coordinates_in_units_of", jstr(S.G.family())}, {"polygons", jarr(pj)}, {"points", pts_json(S.G, qi, len)}, {"grid", jint(S.G.g)}});
+    std::string rp = fmt("sub=group.multi g=%d fam=%d nmax=%d a=%d b=%d len=%d p=%d q=%d", S.G.g, S.G.fam, S.nmax, a, b, len, len > 0 ? qi[0] : 0, len > 1 ? qi[1] : 0);
     if (!ins_ok) R->violation("group.multi", "inside", tags, cs, fmt("inside() wrote [%02x %02x %02x %02x]; per-point disjunction over the group = [%d %d] for the first %d entries, later entries must stay untouched (aa)", rb[0], rb[1], rb[2], rb[3], e[0], e[1], len), rp);
     if (gall != eall) R->violation("group.multi", "all_inside", tags, cs, fmt("all_inside = %d, conjunction over points of disjunction over polygons = %d", gall, eall), rp);
     if (gany != eany) R->violation("group.multi", "any_inside", tags, cs, fmt("any_inside = %d, existence over points and polygons = %d", gany, eany), rp);
@@ -420,10 +484,10 @@ static void for_point_lists(const GroupSpace& S, int maxlen, F f) {
     if (maxlen >= 1) for (qi[0] = 0; qi[0] < S.G.nq(); qi[0]++) f(qi, 1);
     if (maxlen >= 2) for (qi[0] = 0; qi[0] < S.G.nq(); qi[0]++) for (qi[1] = 0; qi[1] < S.G.nq(); qi[1]++) f(qi, 2);
 }
-static void run_groups(int g, int nmax, int maxlen) {
-    GroupSpace S(g, nmax, maxlen);
+static void run_groups(int g, int nmax, int maxlen, int fam = 0) {
+    GroupSpace S(g, nmax, maxlen, fam);
     int NL = (int)S.lists.size();
-    std::string tag = fmt("g%d.n%d.len%d", g, nmax, maxlen);
+    std::string tag = fmt("%sg%d.n%d.len%d", fam ? fmt("wide_mantissa.u%d.", fam).c_str() : "", g, nmax, maxlen);
     // --- single polygon: contain_all / contain_any; repetition variants with point lists of length <= 1
     {
         auto body = [&](int64_t a) {
@@ -434,7 +498,7 @@ static void run_groups(int g, int nmax, int maxlen) {
         };
         std::string sub = "group.single." + tag;
         bool ok = parallel_for(*R, NL, body, [&](int64_t a) { return jobj({{"polygon", S.lists[a].L.json()}, {"grid", jint(g)}}); },
-                               [&](int64_t a) { return fmt("sub=group.single.all g=%d nmax=%d a=%lld len=%d", g, nmax, (long long)a, maxlen); }, PFOptions{300, sub, true});
+                               [&](int64_t a) { return fmt("sub=group.single.all g=%d fam=%d nmax=%d a=%lld len=%d", g, fam, nmax, (long long)a, maxlen); }, PFOptions{300, sub, true});
         int64_t per = S.npl();
         int64_t per1 = 0;
         for (int l = 0; l <= std::min(maxlen, 1); l++) per1 += ipow(S.G.nq(), l);
@@ -456,7 +520,7 @@ static void run_groups(int g, int nmax, int maxlen) {
         };
         std::string sub = "group.multi." + tag;
         bool ok = parallel_for(*R, NL + 1, body, [&](int64_t i) { return jobj({{"first_polygon", i ? S.lists[i - 1].L.json() : std::string("null")}, {"second_polygon", jstr("each list in turn, and none")}, {"grid", jint(g)}}); },
-                               [&](int64_t i) { return fmt("sub=group.multi.all g=%d nmax=%d a=%lld len=%d", g, nmax, (long long)i - 1, maxlen); }, PFOptions{600, sub, true});
+                               [&](int64_t i) { return fmt("sub=group.multi.all g=%d fam=%d nmax=%d a=%lld len=%d", g, fam, nmax, (long long)i - 1, maxlen); }, PFOptions{600, sub, true});
         if (R->time_left() <= 0) { ok = false; R->deadline_was_hit = true; }
         int64_t groups = 1 + (int64_t)NL * (NL + 1);
         R->sample("group.multi", jobj({{"polygons", jarr({S.lists[NL / 2].L.json(), S.lists[NL - 3].L.json()})}, {"point_lists", jstr(fmt("all %lld lists of length <= %d", (long long)S.npl(), maxlen))}}));
@@ -470,7 +534,7 @@ static int replay() {
     int g = atoi(R->rarg("g").c_str());
     auto I = [&](const char* k) { return (int64_t)atoll(R->rarg(k).c_str()); };
     if (sub == "point" || sub == "measure" || sub == "chunk") {
-        Grid G{g};
+        Grid G = make_grid(g, (int)I("fam"));
         int n = (int)I("n");
         Acc a;
         if (sub == "point") list_case(G, n, I("idx"), a, (int)I("qi"), -1, true);
@@ -480,7 +544,7 @@ static int replay() {
         return R->finish();
     }
     int nmax = (int)I("nmax"), len = (int)I("len");
-    GroupSpace S(g, nmax, std::max(len, 0));
+    GroupSpace S(g, nmax, std::max(len, 0), (int)I("fam"));
     GAcc acc;
     int qi[2] = {(int)I("p"), (int)I("q")};
     if (sub == "group.single") single_case(S, (int)I("a"), (int)I("rep"), qi, len, acc, true);
@@ -517,6 +581,19 @@ int main(int argc, char** argv) {
     if (!T) run_groups(3, 2, 2);
     run_groups(3, 3, T ? 2 : 1);
     lap("groups g=3");
+    // family wide_mantissa: exactly representable coordinates whose pairwise products are not representable
+    {
+        Grid G1 = make_grid(4, 1), G2 = make_grid(4, 2);
+        for (const Grid* G : {&G1, &G2}) {  // the double and the integer view of every coordinate must agree exactly
+            for (int k = 0; k < G->g; k++) if (ldexp(k * G->unit, 28) != (double)(2 * k * G->W)) run.internal_error("wide_mantissa: vertex coordinate is not the integer the oracle uses");
+            for (int qi = 0; qi < G->nq(); qi++) if (ldexp(G->qv(qi).x, 28) != (double)G->q(qi).x || ldexp(G->qv(qi).y, 28) != (double)G->q(qi).y) run.internal_error("wide_mantissa: query coordinate is not the integer the oracle uses");
+        }
+    }
+    for (int fam = 1; fam <= 2; fam++) for (int n = 0; n <= 4; n++) run_lists(4, n, fam);
+    if (T) run_lists(4, 5, 1);
+    for (int fam = 1; fam <= 2; fam++) run_groups(2, 3, 2, fam);
+    run_groups(3, 3, 1, 1);
+    lap("wide_mantissa");
     if (T) { for (int n = 0; n <= 5; n++) run_lists(5, n); lap("lists g=5"); }
     return run.finish();
 }
